@@ -1969,3 +1969,101 @@ def m_discriminant_value(c):
             return c.ret(VInt(Lin.const(c.I.discr_of_variant(v.path, v.variant))))
         return c.ret(VInt(Lin.atom(c.I.discr_atom(v))))
     return c.ret(c.fresh())
+
+
+# ------------------------------------------------------------------------------------------------- checksum simulation
+# (comparison runs only: opts["cksum_sim"])  The accumulator is kept as an exact linear expression: every added byte
+# contributes byte * (1 | 256) by its position parity (native little-endian 16-bit words); a slice of unknown length
+# contributes one atom.  The end-around-carry fold makes the sum a value modulo 0xffff, so the rule engine compares the
+# accumulated expression with the expected one modulo 65535.
+
+def _ck_sum_of(c, v):
+    if isinstance(v, VAdt) and v.fields and isinstance(v.fields[0], VInt):
+        return v.fields[0].lin
+    if isinstance(v, VInt):
+        return v.lin
+    return None
+
+
+def _ck_bytes(c, v):
+    if isinstance(v, VArray) and v.elems is not None and all(isinstance(e, VInt) for e in v.elems):
+        return [e.lin for e in v.elems]
+    if isinstance(v, VRegion) and v.len.is_const() and v.len.c <= 64:
+        bs = c.I.region_bytes(c.st, v, v.len.c)
+        if all(isinstance(e, VInt) for e in bs):
+            return [e.lin for e in bs]
+    return None
+
+
+def _ck_ret(c, lin, like):
+    if isinstance(like, VAdt):
+        return c.ret(VAdt(like.path, like.variant, (VInt(lin),), None, like.ty))
+    return c.ret(VInt(lin))
+
+
+@M.regp(r"^checksum::(Sum16BitWords|u64_16bit_word|u32_16bit_word)::add_(2|4|8|16)bytes$")
+def m_ck_add_bytes(c):
+    if not c.I.opts.get("cksum_sim"):
+        return NOT_HANDLED
+    acc = deref(c.I, c.st, c.args[0])
+    s0 = _ck_sum_of(c, acc)
+    bs = _ck_bytes(c, c.args[1])
+    if s0 is None or bs is None:
+        c.st.notes["cksum_bad"] = "untracked operand of %s" % c.path
+        return c.ret(c.fresh())
+    r = s0
+    for i, b in enumerate(bs):
+        r = r + b.scale(256 if i % 2 else 1)
+    return _ck_ret(c, r, acc)
+
+
+@M.regp(r"^checksum::(Sum16BitWords|u64_16bit_word|u32_16bit_word)::add_slice$")
+def m_ck_add_slice(c):
+    if not c.I.opts.get("cksum_sim"):
+        return NOT_HANDLED
+    acc = deref(c.I, c.st, c.args[0])
+    s0 = _ck_sum_of(c, acc)
+    r = as_region(c.I, c.st, c.args[1])
+    if s0 is None or r is None:
+        c.st.notes["cksum_bad"] = "untracked operand of %s" % c.path
+        return c.ret(c.fresh())
+    if r.len.is_const() and r.len.c <= 64:
+        lin = s0
+        for i, b in enumerate(c.I.region_bytes(c.st, r, r.len.c)):
+            lin = lin + b.lin.scale(256 if i % 2 else 1)
+        return _ck_ret(c, lin, acc)
+    rg = c.I.int_range(c.st, r.len, cap=64) if r.origin[0] == "place" else None
+    if rg is not None and rg[1] - rg[0] <= 48:
+        outs = []
+        for n in range(rg[0], rg[1] + 1):
+            s2 = c.st.fork()
+            try:
+                s2.add_ge0(r.len - n)
+                s2.add_ge0(Lin.const(n) - r.len)
+                if not s2.feasible(list(r.len.atoms())):
+                    continue
+            except Infeasible:
+                continue
+            lin = s0
+            for i, b in enumerate(c.I.region_bytes(s2, r, n)):
+                lin = lin + b.lin.scale(256 if i % 2 else 1)
+            v = VAdt(acc.path, acc.variant, (VInt(lin),), None, acc.ty) if isinstance(acc, VAdt) else VInt(lin)
+            outs.extend(c.ret_k(s2, v))
+        return outs
+    a = reg_atom(("slicesum", r.origin, r.off.key(), r.len.key()), 0, None)
+    return _ck_ret(c, s0 + Lin.atom(a), acc)
+
+
+@M.regp(r"^checksum::(Sum16BitWords|u64_16bit_word|u32_16bit_word)::(ones_complement|to_ones_complement_with_no_zero|ones_complement_with_no_zero)$")
+def m_ck_fold(c):
+    if not c.I.opts.get("cksum_sim"):
+        return NOT_HANDLED
+    acc = deref(c.I, c.st, c.args[0])
+    s0 = _ck_sum_of(c, acc)
+    kind = "ocnz" if "no_zero" in c.path else "oc"
+    if s0 is None:
+        c.st.notes["cksum_bad"] = "untracked accumulator at %s" % c.path
+        return c.ret(c.fresh())
+    c.st.notes["cksum"] = c.st.notes.get("cksum", ()) + ((kind, s0, c.sp),)
+    a = reg_atom(("ckfold", kind, s0.key()), 0, 65535)
+    return c.ret(VInt(Lin.atom(a)))
